@@ -86,6 +86,10 @@ def compare_message(written, node, where):
         tb = c.get("traceback")
         if not isinstance(tb, str) or type(e).__name__ not in tb:
             raise Violation("field_mismatch", "%s: traceback text %s" % (where, short(tb)))
+        if not node.loose and node.fields is not None:
+            extra = {k: v for k, v in c.items()
+                     if k not in ("message_type", "reason", "exception", "traceback")}
+            check_fields(extra, node.fields, where + " traceback extractor fields")
         return
     if c.get("message_type") != node.mtype:
         raise Violation("type_mismatch", "%s: message_type %r, logged %r" % (
@@ -209,6 +213,7 @@ def check_forest(messages, model, order_free=False, require_complete=True):
     except Exception as e:  # noqa
         raise Violation("parse_error", "Parser raised %s: %s" % (type(e).__name__, str(e)[:300]))
     roots = {}
+    anon = []
     for t in tasks:
         try:
             r = t.root()
@@ -218,6 +223,9 @@ def check_forest(messages, model, order_free=False, require_complete=True):
             key = nid_of(dict(r.start_message.as_dict())) if r.start_message else None
         else:
             key = nid_of(dict(r.as_dict()))
+        if key is None:
+            anon.append(t)
+            continue
         if key in roots:
             raise Violation("duplicated", "two parsed tasks for root nid=%s" % key)
         roots[key] = t
@@ -228,7 +236,19 @@ def check_forest(messages, model, order_free=False, require_complete=True):
             len(tasks), len(want_roots), sorted(roots, key=str)))
     uuids = set()
     for node in want_roots:
-        t = roots.get(node.nid)
+        if node.nid is None:
+            # anonymous roots (extractor-failure tracebacks outside any action): in order
+            t = None
+            for cand in anon:
+                cr = cand.root()
+                if isinstance(cr, WrittenMessage) and node.tb is not None and \
+                        cr.contents.get("reason") == exc_text(node.tb):
+                    t = cand
+                    break
+            if t is not None:
+                anon.remove(t)
+        else:
+            t = roots.get(node.nid)
         if t is None:
             raise Violation("reparented", "no parsed task is rooted at %r (roots: %s)" % (
                 node, sorted(roots, key=str)))
@@ -266,3 +286,51 @@ def _check_one_uuid(written, uuid, where):
     if isinstance(written, WrittenAction):
         for c in written.children:
             _check_one_uuid(c, uuid, where)
+
+
+def account(messages, model, allow_types=()):
+    """Exact accounting of message kinds against the model: lost or
+    duplicated start/end/plain messages cannot hide behind the parser."""
+    starts = ends = plain = 0
+    for m in messages:
+        if m.get("message_type") in allow_types and "action_status" not in m:
+            continue
+        st = m.get("action_status")
+        if st == "started":
+            starts += 1
+        elif st in ("succeeded", "failed"):
+            ends += 1
+        else:
+            plain += 1
+    acts = model.all_actions()
+    want_starts = sum(1 for a in acts if a.started)
+    want_ends = sum(1 for a in acts if a.outcome is not None and a.started)
+    want_plain = sum(1 for n in model.all_nodes() if n.kind == "msg")
+    if starts != want_starts:
+        raise Violation(("start_count", {"dir": "more" if starts > want_starts else "fewer"}),
+                        "%d start messages emitted, %d actions started" % (starts, want_starts))
+    if ends != want_ends:
+        raise Violation(("end_count", {"dir": "more" if ends > want_ends else "fewer"}),
+                        "%d end messages emitted, %d actions finished" % (ends, want_ends))
+    if plain != want_plain:
+        raise Violation(("message_count", {"dir": "more" if plain > want_plain else "fewer"}),
+                        "%d plain messages emitted, %d logged" % (plain, want_plain))
+
+
+def canonical_forest(messages):
+    """Schedule-independent canonical form of the parsed forest: uuids,
+    levels and timestamps removed, siblings sorted."""
+    from eliot.parse import Parser, WrittenAction
+
+    def strip(d):
+        return canon_fields({k: v for k, v in d.items() if k not in META})
+
+    def node(n):
+        if isinstance(n, WrittenAction):
+            s = strip(dict(n.start_message.as_dict())) if n.start_message else None
+            e = strip(dict(n.end_message.as_dict())) if n.end_message else None
+            return ("A", s, e, tuple(sorted((node(c) for c in n.children), key=repr)))
+        return ("M", strip(dict(n.as_dict())))
+
+    tasks = list(Parser.parse_stream(messages))
+    return tuple(sorted((node(t.root()) for t in tasks), key=repr))
